@@ -329,7 +329,9 @@ theorem step_bytes (s : State) (op : Op) (h : Inv s) (r : Nat) (hp : Protected s
     · rfl
   | exportFfi srcs d =>
     simp only [step, opExportFfi]; split
-    · rw [holdAll_bytes]; rfl
+    · split
+      · rw [holdAll_bytes]; rfl
+      · rfl
     · rfl
   | importFfi i dsts =>
     simp only [step, opImportFfi]; split
@@ -468,7 +470,9 @@ theorem step_slots (s : State) (op : Op) (j : Nat) (hj : j ∉ op.targets) :
   | exportFfi srcs d =>
     simp only [Op.targets, List.mem_singleton] at hj
     simp only [step, opExportFfi]; split
-    · rw [holdAll_slots]; exact setSlot_other _ _ _ _ hj
+    · split
+      · rw [holdAll_slots]; exact setSlot_other _ _ _ _ hj
+      · rfl
     · rfl
   | importFfi i dsts =>
     simp only [Op.targets, List.mem_cons, not_or] at hj
